@@ -11,33 +11,58 @@ def showErr : CErr → String
   | .aborted c => s!"err aborted {c}"
   | _ => "err other"
 
-/-- `typed <od> <idx> <sub> <type|n> <value token> <delivery>` →
-    `set result | stored bytes | remote read | local read` -/
+/-- the channel an operation starts on: fresh, or (`late-…`) after an earlier read of the entry whose
+    response arrived only after the client had given up -/
+def startChan (n0 : Node) (idx sub : Nat) (delivery : String) : Chan (Srv × Node) :=
+  if delivery.startsWith "late" then
+    let cd0 : Chan ((Srv × Node) × DState) :=
+      { peer := ((srvInit, n0), { idx := 0, pending := [] }), queue := [], sent := [] }
+    let cd1 := (upload (distPeer libPeer 0 .late) cd0 idx sub none 100000).1
+    { peer := cd1.peer.1, queue := cd1.queue, sent := cd1.sent }
+  else { peer := (srvInit, n0), queue := [], sent := [] }
+
+/-- what is seen after the assignment: `stored bytes | remote read | local read | local upload` -/
+def showAfter (c1 : Chan (Srv × Node)) (idx sub : Nat) (t : Option Nat) : String :=
+  let stored := match lookup (idx, sub) c1.peer.2.store with
+    | some b => toHex b
+    | none => "none"
+  let (c2, r2) := remoteGet c1 idx sub t 100000
+  let loc := match localGet c2.peer.2 idx sub t with
+    | some v => C04.showVal v
+    | none => "err"
+  let lraw := match localUpload c2.peer.2 idx sub with
+    | some b => toHex b
+    | none => "err"
+  let s2 := match r2 with | .ok v => s!"ok {C04.showVal v}" | .error e => showErr e
+  s!"{stored} | {s2} | {loc} | {lraw}"
+
+def showSrvErr : Err → String
+  | .abort c => s!"err aborted {c}"
+  | .generic => "err other"
+
+/-- `typed <od> <idx> <sub> <type|n> <value token> <delivery>`: assignment through the REMOTE accessor;
+    `ltyped …` (same arguments): assignment through the LOCAL node's own accessor.  The access type of
+    the entry is the second field of its descriptor in `<od>` (0 rw, 1 ro, 2 wo, 3 const, 4 rwr, 5 rww).
+    → `set result | stored bytes | remote read | local read | local upload` -/
 def step (args : List String) : String :=
   match args with
   | ["typed", od, idx, sub, t, v, delivery] =>
     match C02.parseOd od, idx.toNat?, sub.toNat?, C04.parseType t, C02.parseVal v with
     | some od, some idx, some sub, some t, some (some v) =>
-      let n0 := C02.mkNode od []
-      let c0 : Chan (Srv × Node) :=
-        if delivery.startsWith "late" then
-          -- history: an earlier read whose response arrived only after the client had given up
-          let cd0 : Chan ((Srv × Node) × DState) :=
-            { peer := ((srvInit, n0), { idx := 0, pending := [] }), queue := [], sent := [] }
-          let cd1 := (upload (distPeer libPeer 0 .late) cd0 idx sub none 100000).1
-          { peer := cd1.peer.1, queue := cd1.queue, sent := cd1.sent }
-        else { peer := (srvInit, n0), queue := [], sent := [] }
+      let c0 := startChan (C02.mkNode od []) idx sub delivery
       let (c1, r1) := remoteSet c0 idx sub t v
-      let stored := match lookup (idx, sub) c1.peer.2.store with
-        | some b => toHex b
-        | none => "none"
-      let (c2, r2) := remoteGet c1 idx sub t 100000
-      let loc := match localGet c2.peer.2 idx sub t with
-        | some v => C04.showVal v
-        | none => "err"
       let s1 := match r1 with | .ok _ => "ok" | .error e => showErr e
-      let s2 := match r2 with | .ok v => s!"ok {C04.showVal v}" | .error e => showErr e
-      s!"{s1} | {stored} | {s2} | {loc}"
+      s!"{s1} | {showAfter c1 idx sub t}"
+    | _, _, _, _, _ => "bad-op"
+  | ["ltyped", od, idx, sub, t, v, delivery] =>
+    match C02.parseOd od, idx.toNat?, sub.toNat?, C04.parseType t, C02.parseVal v with
+    | some od, some idx, some sub, some t, some (some v) =>
+      let c0 := startChan (C02.mkNode od []) idx sub delivery
+      let (c1, s1) : Chan (Srv × Node) × String :=
+        match localSet c0.peer.2 idx sub t v with
+        | .ok n1 => ({ c0 with peer := (c0.peer.1, n1) }, "ok")
+        | .error e => (c0, showSrvErr e)
+      s!"{s1} | {showAfter c1 idx sub t}"
     | _, _, _, _, _ => "bad-op"
   | ["shared", od, idx, sub, t, v] =>
     -- two local nodes built from ONE dictionary object: a value written to the first must not show on the second
